@@ -864,4 +864,52 @@ theorem widen_pyS (ps : List PassId) (hok : pyStructChainOK ps = true) (S S' : S
     simp only [sImg] at h1
     exact hw n _ j rfl rfl h1
 
+/-! ### helper for the witness of the false full statement (Props/C11.lean) -/
+
+/-- the object `pkg.name` is a struct with the single member `k`, a reference to the object itself -/
+def selfRefShape (S : Schemas) (pkg name k : String) : Bool :=
+  match Schemas.locateObject S pkg name with
+  | some o =>
+    (match o.ty with
+     | .struct [f] _ _ _ =>
+       f.name == k && (match f.ty with | .ref p n _ => p == pkg && n == name | _ => false)
+     | _ => false)
+  | none => false
+
+/-- `from_json` of a class raises on `null`: an explicit `null` under a member that refers to a class is
+    in no fuel's `pyDen` -/
+theorem selfRefShape_pyDen (S : Schemas) (pkg name k : String) (h : selfRefShape S pkg name k = true) (m : Meta) :
+    ∀ n, pyDen n S (.ref pkg name m) (.obj [(k, .null)]) = false := by
+  simp only [selfRefShape] at h
+  cases ho : Schemas.locateObject S pkg name with
+  | none => simp [ho] at h
+  | some o =>
+    simp only [ho] at h
+    cases hty : o.ty with
+    | struct fields g gi sm =>
+      rw [hty] at h
+      match fields, h with
+      | [f], h =>
+        simp only [Bool.and_eq_true, beq_iff_eq] at h
+        obtain ⟨hname, hft⟩ := h
+        cases hf : f.ty with
+        | ref p q fm =>
+          rw [hf] at hft
+          simp only [Bool.and_eq_true, beq_iff_eq] at hft
+          obtain ⟨rfl, rfl⟩ := hft
+          have hnull : ∀ n' m', pyDen n' S (.ref p q m') .null = false := by
+            intro n' m'
+            cases n' with
+            | zero => rfl
+            | succ n' => simp [pyDen, ho, hty]
+          intro n
+          cases n with
+          | zero => rfl
+          | succ n =>
+            simp [pyDen, ho, hty, pyFieldOK, hf, fixedValue, constOf, hname, Json.lookup, isSlot, hnull]
+        | _ => rw [hf] at hft; simp at hft
+      | [], h => simp at h
+      | _ :: _ :: _, h => simp at h
+    | _ => rw [hty] at h; simp at h
+
 end Cog.Sem.Src
